@@ -461,3 +461,16 @@ CLAIMS["C40"] = (
     "6/C40", TRUSTED + ", AddressSanitizer / UBSan / LeakSanitizer (thorough tier); uninitialised reads (MSan) are not "
     "covered; 'any sequence of API calls' is approximated by the sampled cases of the other properties' generators",
     "TLA+ reference-counting model checked by TLC + live-count trace validation (+ sanitizers)")
+
+CLAIMS["C12"] = (
+    "model_checking",
+    "TLC enumerates number expressions: ~600 with an exact rational value (arithmetic and integer powers of 15 "
+    "rationals, rounding functions, max/min, perfect-power roots, functions at special points) and ~7000 with "
+    "irrational values (37 functions of rationals, constants, radicals and floats, nested one level); eval_double in "
+    "its visitor, single-dispatch and default forms, evalf at 53 and 20 bits, eval_complex_double and the lambda "
+    "visitor run on each; TLC validates the exact cases against the 53-bit quotient computed by long division in "
+    "module Dbl, and on all cases the mutual agreement of the independently written evaluators, to 2^-40",
+    "6/C12", TRUSTED + "; the accuracy of libm-backed nodes at arguments whose value is irrational is decided only "
+    "through the agreement of the evaluators (TLC has no real numbers; a rational enclosure of sin, exp, ... at 53 "
+    "bits does not fit its 32-bit integers)",
+    "TLA+ exact rational-to-double oracle + evaluator agreement + TLC trace validation")
